@@ -146,6 +146,20 @@ def judge_case(ctx, res):
             ctx.violation(f"snapshot-field-mismatch {fam} {opname} {site}",
                           f"{schema}: after {opname}, snapshot().{f} = {str(got.get(f))[:120]} but "
                           f"{str(written.get(f))[:120]} was written (expected {str(exp.get(f))[:120]})", wit)
+        if fam == "v2" and written.get("waveform") and isinstance(got.get("waveform"), str):
+            # 2.x keeps a 1024-point overview: point i is the entry at (2i+1)/2048 of what was written (the sampling the
+            # stored-content check C02 pins); the read-back waveform must be exactly those entries' values
+            from .c02 import overview_expected
+            want = overview_expected(written["waveform"], exp.get("sample_count"), exp.get("sample_rate"))
+            gw = bytes.fromhex(got["waveform"])
+            if want is not None and len(gw) == 6 * 1024:
+                have = [(gw[6 * i], gw[6 * i + 2], gw[6 * i + 4]) for i in range(1024)]
+                ctx.bump("overview_sampling_checks")
+                if have != want:
+                    j = next(i for i in range(1024) if have[i] != want[i])
+                    ctx.violation(f"snapshot-field-mismatch {fam} {opname} waveform(overview-sampling)",
+                                  f"{schema}: after {opname} of a {len(written['waveform']) // 12}-entry waveform, overview point {j} reads "
+                                  f"{have[j]} but the entry at (2*{j}+1)/2048 of the input is {want[j]}", wit)
         for f in GS.ALL_FIELDS:
             v = got.get(f)
             if v not in (None, [], ""):
